@@ -32,7 +32,7 @@ VARIABLES core, rev,
           ops,
           last       \* last call (observation only)
 vars == <<core, rev, saved, ops, last>>
-view == <<core, rev, saved>>
+view == <<core, rev, saved, ops>>
 
 \* items: a set of <<key, value>> pairs with distinct keys (the Go map[string]*CoreData)
 KeysOf(S) == {p[1] : p \in S}
